@@ -52,6 +52,11 @@ def main():
         edits = [e for e in edits if e in ids]
     scratch = tempfile.mkdtemp(prefix="ss_benign_")
     bad = inc = 0
+    known = {}
+    kp = os.path.join(d, "KNOWN_LIMITATIONS.json")
+    if os.path.exists(kp):
+        known = json.load(open(kp))["edits"]
+    nknown = 0
     try:
         jobs = []
         for e in edits:
@@ -67,6 +72,10 @@ def main():
                 if not out:
                     print("%-10s silent" % eid)
                 for p, rc, lines in out:
+                    if eid in known and p in known[eid]["checks"]:
+                        nknown += 1
+                        print("%-10s known limitation of the checker: %s answers %d (%s)" % (eid, p, rc, known[eid]["why"]))
+                        continue
                     if rc == 1:
                         bad += 1
                     else:
@@ -76,8 +85,8 @@ def main():
                         print("             " + l[:300])
     finally:
         shutil.rmtree(scratch, ignore_errors=True)
-    print("%d edits, %d false alarms, %d incomplete" % (len(edits), bad, inc))
-    sys.exit(1 if bad else 0)
+    print("%d edits, %d false alarms, %d incomplete, %d known limitations" % (len(edits), bad, inc, nknown))
+    sys.exit(1 if (bad or inc) else 0)
 
 
 if __name__ == "__main__":
